@@ -134,6 +134,41 @@ def run(eng, R):
 
     check_snapshot_complete(eng, R, "Csl")
 
+    # ---- _load_state writes the restored parameter values back to the graph on every path (seed s122)
+    with R.guard("_load_state writes the restored values back on every path"):
+        R.rule("Cwb-load", "every path through _load_state of the base class hands the restored parameter values to the objective wrapper (graph and backend "
+               "agree after an excursion that only called set()); every adapter's _load_state reaches the base class on every path", 3)
+        WB = {"_func_wrapper_unpack_args", "_func_wrapper", "_func_handle"}
+        for an in ["MinimizerBase"] + list(ADAPTERS):
+            cls = p.find_class(an)
+            f = cls.methods.get("_load_state")
+            if f is None:
+                continue
+            g = eng.cfg(f)
+
+            def is_wb_load(n, base=(an == "MinimizerBase")):
+                for c in eng.calls_in_parts(n.ast_parts()):
+                    if not isinstance(c.func, ast.Attribute):
+                        continue
+                    if base and c.func.attr in WB and is_self(c.func.value):
+                        return True
+                    if not base and c.func.attr == "_load_state" and isinstance(c.func.value, ast.Call) and isinstance(c.func.value.func, ast.Name) and c.func.value.func.id == "super":
+                        return True
+                return False
+
+            ok, _ = g.all_paths_pass(g.entry.id, is_wb_load)
+            R.ob("Cwb-load", "%s._load_state:write-back" % an, ok, eng.where(f),
+                 "%s._load_state has a path that does not %s: after an excursion that moved the graph without re-minimising (asymmetric errors of a single free "
+                 "parameter with the scipy adapter call only set()) the backend is back at the optimum and the graph stays at the last probed point"
+                 % (an, "call the objective wrapper with the restored parameter values" if an == "MinimizerBase" else "reach MinimizerBase._load_state"))
+
+    # ---- the snapshot shares no mutable object with the live state
+    with R.guard("the snapshot shares no mutable object with the live state"):
+        from . import c08_alias
+        R.rule("Calias", "a field that an adapter changes in place is copied into the snapshot by _save_state and copied out of it by _load_state: no store "
+               "after a save / load can write into the snapshot", 5)
+        c08_alias.check(eng, R, "Calias", ["MinimizerBase"] + list(ADAPTERS))
+
     # ---- nobody keeps a reference to a fit's fitter / minimizer: the fit replaces them (MultiFit members, first shared error) and a kept one still writes into the shared nodes
     with R.guard("nobody keeps a reference to a fit's fitter / minimizer: the "):
         R.rule("Cref", "objects working on a fit (profiler, plots, wrappers) reach its fitter / minimizer through the fit at the time of the query; none stores the reference", 1)
